@@ -1572,6 +1572,9 @@ def replay_f15(chk):
     return res
 
 
+# the CSV statements restated from the FILE TEXT (csv reader model of C16, Lemmas/CsvTextFile.lean)
+FILE_THEOREMS = ['Okane.Import.C15_csv_readback_ledger_file', 'Okane.Import.C15_csv_amount_readback_file']
+
 def run(chk):
     chk.rule = ("txn stream: random builder-call sequences for single_entry::Txn (dates incl. year 1 / 9999 / leap day, amounts of both sign "
                 "flags incl. zero and scales 0-8, transferred amounts, rates, balances, 0-2 charges incl. not-included ones, explicit "
@@ -1598,7 +1601,7 @@ def run(chk):
                        "semantics on the four fixed patterns, chrono's %d.%m.%y and rust_decimal's from_str are transliterated by hand and "
                        "validated by the viseca-text stream; the regex engine for the CONFIGURED rewrite patterns stays a parameter",
                        "rust_decimal addition outside 96 bits / scale 28 is not modelled"]
-    if not standard_prologue(chk, THEOREMS):
+    if not standard_prologue(chk, THEOREMS + FILE_THEOREMS, imports=["Okane.Lemmas.CsvTextFile"]):
         return
     quick = chk.tier == "quick"
     f15 = []
